@@ -4,6 +4,7 @@ import (
 	"bytes"
 	"fmt"
 	"math"
+	"time"
 
 	"github.com/gcash/bchd/chaincfg/chainhash"
 	"github.com/gcash/bchd/wire"
@@ -118,7 +119,11 @@ func c16Block(r *kit.Rng, st *kit.Stats) *wire.MsgBlock {
 	copy(h[:], r.Bytes(32))
 	var mr chainhash.Hash
 	copy(mr[:], r.Bytes(32))
-	blk := wire.NewMsgBlock(wire.NewBlockHeader(int32(r.Range(1, 4)), &h, &mr, r.U32(), r.U32()))
+	hdr := wire.NewBlockHeader(int32(r.Range(1, 4)), &h, &mr, r.U32(), r.U32())
+	// NewBlockHeader stamps the real clock: every source of nondeterminism
+	// goes behind the seed
+	hdr.Timestamp = time.Unix(int64(r.U32()), 0)
+	blk := wire.NewMsgBlock(hdr)
 	n := 0
 	switch r.Intn(10) {
 	case 0:
